@@ -409,14 +409,21 @@ def gen_desc(rng, family):
         units, edges = shape_tiny(rng)
     else:
         units, edges = shape_random(rng)
-    return render(rng, units, edges), tags
+    desc = render(rng, units, edges)
+    if rng.random() < 0.03 and desc["units"]:
+        # a non-integral width, as YAML `width: 0.5` / `1.5` gives (outside the Lean model: judged by `evaluate_fractional`)
+        u = rng.choice(desc["units"])
+        u["width"] = u["width"] - 0.5
+        tags.append("fractional-width")
+    return desc, tags
 
 
 # --------------------------------------------------------------------------------------------------
 # implementation side
 
 def unit_json(m):
-    return {"name": m.name, "width": int(m.width), "caps": list(m.capabilities), "rd": bool(m.lock_info.rd_lock),
+    return {"name": m.name, "width": m.width if isinstance(m.width, float) and m.width != int(m.width) else int(m.width),
+            "caps": list(m.capabilities), "rd": bool(m.lock_info.rd_lock),
             "wr": bool(m.lock_info.wr_lock), "acl": list(m._mem_acl)}
 
 
@@ -482,6 +489,16 @@ def run_load(desc):
         for key in ("capabilities", "memoryAccess"):
             if isinstance(u, dict) and isinstance(u.get(key), list):
                 u[key] = shared.setdefault((key, json.dumps(u[key])), u[key])
+    # an in-memory description need not be made of lists only: connections as tuples, the unit sequence as a tuple
+    if isinstance(arg, dict) and isinstance(arg.get("dataPath"), list) and len(json.dumps(arg)) % 3 == 1:
+        # (only connections of two elements: a malformed one is quoted in the error message as it was written, and the
+        # message model renders lists)
+        arg["dataPath"] = [tuple(e) if isinstance(e, list) and len(e) == 2 else e for e in arg["dataPath"]]
+    if isinstance(arg, dict) and isinstance(arg.get("units"), list) and len(json.dumps(desc)) % 5 == 2:
+        arg["units"] = tuple(arg["units"])
+    # ... and the connections may come as a one-shot iterable (zip of two columns, a generator): read them once
+    if isinstance(arg, dict) and isinstance(arg.get("dataPath"), list) and len(json.dumps(desc)) % 7 in (3, 4):
+        arg["dataPath"] = iter(arg["dataPath"]) if len(json.dumps(desc)) % 7 == 3 else (e for e in list(arg["dataPath"]))
     try:
         with core.watchdog(TIMEOUT):
             p = processor_utils.load_proc_desc(arg)
@@ -602,7 +619,35 @@ def _trivial(app=False):
     return {"app": app, "nontrivial": False, "k": True, "o": None}
 
 
+def fractional(desc) -> bool:
+    return any(isinstance(u.get("width"), float) for u in desc.get("units", []))
+
+
+def evaluate_fractional(desc: dict) -> dict:
+    """a description with a non-integral width (YAML `width: 0.5`): outside the Lean model (widths are integers there).
+    Only the two clauses that still make sense are judged, here in Python: an accepted processor has positive widths
+    (C09) and every kept unit retains its declared width (C10) — seeded change C09-11 truncated 0.5 to 0 after the
+    positive-width check."""
+    impl = run_load(desc)
+    props = {pid: _trivial() for pid in PROPS}
+    tags = ["fractional-width", "impl:" + ("ok" if impl["ok"] else impl["error"]["class"])]
+    if impl["ok"]:
+        declared = {u["name"].lower(): u["width"] for u in desc["units"]}
+        pj = impl["proc"]
+        o9 = o10 = None
+        for u in pj["inPorts"] + pj["inOut"] + pj["outPorts"] + pj["internal"]:
+            if not u["width"] > 0:
+                o9 = "an accepted processor has positive widths"
+            if declared.get(u["name"].lower()) != u["width"]:
+                o10 = "every kept unit retains its declared width"
+        props["C09"] = {"app": True, "nontrivial": False, "k": True, "o": o9}
+        props["C10"] = {"app": True, "nontrivial": False, "k": True, "o": o10}
+    return {"props": props, "tags": tags, "impl": impl, "model": None}
+
+
 def evaluate_load(desc: dict) -> dict:
+    if fractional(desc):
+        return evaluate_fractional(desc)
     impl = run_load(desc)
     ans = core.driver().ask({"op": "load", "desc": desc, "impl": impl})
     ok = impl["ok"]
